@@ -7,7 +7,7 @@ PREFIXES = ["C04_"]
 
 def nontrivial(sc, body):
     constrained = any(p["sel"] or p["affIn"] or p["affNot"] or p["podAff"] or p["podAnt"] for p in sc["pods"]) or \
-        any(n["taints"] or not n["ready"] or n["unsched"] for n in sc["nodes"])
+        any(n["taints"] or not n["ready"] or n["unsched"] for n in sc["nodes"]) or any(j.get("topo") for j in sc["jobs"])
     return constrained and any(x["ev"] in ("Bind", "Pipeline") for x in body)
 
 
@@ -16,7 +16,7 @@ def run(ctx):
                        "unschedulable nodes, pods with node selectors, required node affinity (In/NotIn), tolerations (Equal/Exists), pod labels and "
                        "required pod (anti-)affinity terms on hostname/zone, under allocate, reclaim, preempt and consolidation over 1-3 cycles; "
                        "non-trivial = a constrained scenario in which the real scheduler placed something")
-    ctx.assumptions += ["topology-CRD (required level) constraints, NodePorts, volume and DRA constraints are not generated by this check",
+    ctx.assumptions += ["topology constraints: one topology object (1-3 levels, nodes missing labels), required level on the pod group; sub-group level and preferred levels are not generated; NodePorts, volume and DRA constraints are not generated",
                         "the spec restates the upstream filter semantics (InterPodAffinity incl. the self-affinity bootstrap rule) independently"]
     n = 400 if ctx.quick else 10000
-    st_cluster.run_stage(ctx, PREFIXES, [("constr", n)], nontrivial_fn=nontrivial)
+    st_cluster.run_stage(ctx, PREFIXES, [("constr", n * 2 // 3), ("topo", n // 3)], nontrivial_fn=nontrivial)
